@@ -143,8 +143,8 @@ def check_one(r, val):
         built, wf, ok, summ, atk, ato = val
         obl = [("build programme accepted", built is True), ("wf_heffb", wf is True), ("heff_ok", ok is True)]
     else:
-        built, ok, summ, atk, ato = val
-        obl = [("build programme accepted", built is True), ("link_ok", ok is True)]
+        built, wf, ok, summ, atk, ato = val
+        obl = [("build programme accepted", built is True), ("wf_linkb", wf is True), ("link_ok", ok is True)]
     what = f"{r['kind']} call {r['call']} ({r.get('n', r.get('l'))})"
     if summ is None or summ == "None":
         return obl, f"{what}: the model contraction does not go through (legs that cannot be paired)"
